@@ -3,12 +3,14 @@
     What is proved is about the model: termination of every fuelled read-side loop with the fuel the model
     gives it ("more fuel changes nothing": the out-of-fuel branch is never the reason for a result), progress
     of the packet reader, the number of points an iteration can yield, and the number of values the queues
-    can hold as a function of the bytes consumed.  Allocator behaviour and wall time are measured by the
+    can hold as a function of the bytes consumed, and the number of bytes the bit buffers of the packet
+    reader hold between calls.  Allocator behaviour and wall time are measured by the
     check, not proved. *)
 From E57 Require Import Base.Prelude Model.Device Model.PagedReader Model.BsRead Model.Record Model.Prog
   Model.QueueReader Model.FileBin Spec.PageReadSpec
   Proofs.PagedReaderCache Proofs.ReaderSessions
-  Proofs.TotFuelDev Proofs.TotFuelPaged Proofs.TotFuelRaw Proofs.TotQueueBits Proofs.TotQueueMain.
+  Proofs.TotFuelDev Proofs.TotFuelPaged Proofs.TotFuelRaw Proofs.TotQueueBits Proofs.TotQueueMain
+  Proofs.TotQueueStreams.
 
 (** * Termination: the fuel of every loop suffices *)
 
@@ -117,6 +119,34 @@ Theorem C09_zero_width_no_values :
   map (@length rvalue) (q_queues amp_q1) = [800; 0; 0; 0]%nat.
 Proof. exact zero_width_no_values. Qed.
 
+(** * Memory: bytes held in the bit buffers of the packet reader
+
+    In every reachable state the bit buffer of a record of zero bit size is empty (it is never
+    appended to; before repair 7dd87aa of the crate it held every byte any data packet had delivered
+    for the record, and each append copied all of it).  The bit buffer of any other record holds fewer
+    unread bits than one value, in at most (bit_size + 6) / 8 leftover bytes (8 for 64 bits) plus the
+    chunk of the last data packet (a buffer is trimmed by the next append only); [m] bounds that chunk
+    by the largest number of bytes a single [advance] has consumed, and one more [advance] keeps the
+    bound with the maximum of [m] and what it consumes.  (In the crate a chunk has at most 65535 bytes,
+    its length being a u16; the model reads the length as a little-endian number of two list elements,
+    which the device model does not restrict to 0..255.)  Nothing grows with the number of packets. *)
+Theorem C09_stream_buffers_bounded : forall ps phys off0 q s, qreach ps phys off0 q s ->
+  exists m, m <= pr_off s - off0 /\
+    Forall2 (fun t b =>
+      if bit_size t =? 0 then br_buf b = [] /\ br_off b = 0
+      else br_off b <= 8 * len (br_buf b) /\
+           8 * len (br_buf b) - br_off b < bit_size t /\
+           len (br_buf b) <= (bit_size t + 6) / 8 + m) (q_proto q) (q_streams q) /\
+    forall s' q', rrun (qr_advance q) s = (s', Ok q') ->
+      pr_off s <= pr_off s' /\
+      Forall2 (fun t b =>
+        if bit_size t =? 0 then br_buf b = [] /\ br_off b = 0
+        else br_off b <= 8 * len (br_buf b) /\
+             8 * len (br_buf b) - br_off b < bit_size t /\
+             len (br_buf b) <= (bit_size t + 6) / 8 + N.max m (pr_off s' - pr_off s))
+        (q_proto q') (q_streams q').
+Proof. exact stream_buffers_bounded. Qed.
+
 Print Assumptions C09_fuel_pr_fill_loop.
 Print Assumptions C09_fuel_d_read_exact.
 Print Assumptions C09_fuel_pr_read_exact.
@@ -133,3 +163,4 @@ Print Assumptions C09_qbound_advance.
 Print Assumptions C09_queue_bound.
 Print Assumptions C09_raw_next_reach.
 Print Assumptions C09_zero_width_no_values.
+Print Assumptions C09_stream_buffers_bounded.
